@@ -456,7 +456,7 @@ BODIES = {
     2: ["x-y", "(x*10)+y", ":[x;y;0-y]", "[a];a::x+y;a*a", "x,y", "y,x", ":[y;x;g1]"],
     3: ["(x*100)+(y*10)+z", ":[x;y;z]", "[a];a::x-y;a*z", "x,y,z", "z,y,x", ":[z;x-y;y-x]"],
 }
-ARGV = ["0", "1", "2", "7", "[]", '""', '"a"', "[3 4]", "0.0", "2.5"]
+ARGV = ["0", "1", "2", "7", "[]", '""', '"a"', "[3 4]", "0.0", "2.5", '"hello"']
 
 
 def scenario_subst(ch, cfg):
